@@ -89,10 +89,18 @@ def judge(ctx, binary, cases):
         if io.startswith("abort:"):
             v["bad"].append(("impl", io.split("@")[0]))
             continue
+        # target dimension above the feature dimension: the four eigen-based projecting methods must refuse it with the
+        # documented wrong_parameter_error (validate(), fix F-DIM-RANK-LINEAR a64904a); Random Projection accepts any d
+        if c["topic"] == "proj" and c["d"] > c["D"] and c["method"] in ("pca", "npe", "lltsa", "lpp"):
+            if io == "throw:wrong_parameter_error":
+                v["skip"] = "documented-error:d>D"
+            else:
+                v["bad"].append(("validate", "d>D-not-rejected:" + io.split(" ")[0].split("@")[0]))
+            continue
         if io.startswith("throw:"):
             # PCA / Random Projection have no numerical precondition: a throw is a failure;
             # the three neighbourhood methods may legitimately fail on degenerate data (C10's business)
-            if c["topic"] == "proj" and c["method"] in ("pca", "rp") and c["d"] <= c["D"]:
+            if c["topic"] == "proj" and c["method"] in ("pca", "rp"):
                 v["bad"].append(("impl", io))
             else:
                 v["skip"] = io
@@ -177,6 +185,7 @@ WHAT = {
     "unseen": "the projection function is not x -> P^T (x - mean) for the returned (P, mean)",
     "affine": "the projection function is not affine",
     "has": "projection presence is wrong for the method",
+    "validate": "a target dimension above the feature dimension is not rejected with wrong_parameter_error",
     "impl": "the implementation aborted / threw",
     "table": "Gen/Projections.lean disagrees with the running code",
     "driver": "model driver could not judge the case",
